@@ -27,6 +27,7 @@
 #include <event2/event_struct.h>
 
 #define XV_RELAY_ERRNO_MAX 133
+#define XV_RELAY_DATA_MAX 65535
 #define XV_RELAY_CALLS_MAX 1000000
 
 /* ---- the two legs ------------------------------------------------------------------------------------------------ */
@@ -36,6 +37,10 @@ char xv_sock_obj[2];                                  /* two distinct addresses;
 struct xv_leg { _Bool blocking; _Bool closed; _Bool pending_out; int cond; int fd; };
 struct xv_leg xv_legs[2];
 
+/* ghost constant (set by the harness, never assigned afterwards): the hold buffer of the xfwd under proof.  The stubs look
+ * at message bytes through this TYPED pointer only; a call with any other buffer is a failed obligation (hold-one). */
+char (*xv_own_data)[XV_RELAY_DATA_MAX];
+
 _Bool xv_bytestream;      /* ghost constant (never assigned): service type of BOTH legs (rserver pairs equal types only) */
 int xv_src;               /* ghost constant (never assigned): index of the source leg of the xfwd under proof */
 _Bool xv_terminated;      /* the termination callback of the relay has run */
@@ -43,9 +48,9 @@ _Bool xv_cb_frees;        /* ghost constant: the termination callback destroys (
 
 /* last-call records */
 int xv_rcv_calls; struct xcm_socket *xv_rcv_conn; void *xv_rcv_buf; size_t xv_rcv_cap; int xv_rcv_ret; int xv_rcv_errno;
-uint8_t xv_rcv_c;         /* byte xv_j of what xcm_receive stored (xv_j < ret) */
+char xv_rcv_c;            /* byte xv_j of what xcm_receive stored (xv_j < ret) */
 int xv_snd_calls; struct xcm_socket *xv_snd_conn; const void *xv_snd_buf; size_t xv_snd_len; int xv_snd_ret; int xv_snd_errno;
-uint8_t xv_snd_c;         /* byte xv_j of the buffer as xcm_send saw it (xv_j < len) */
+char xv_snd_c;            /* byte xv_j of the buffer as xcm_send saw it (xv_j < len) */
 int xv_fin_calls; struct xcm_socket *xv_fin_conn; int xv_fin_ret; int xv_fin_errno;
 int xv_aw_calls;          /* xcm_await calls */
 int xv_sb_calls;          /* xcm_set_blocking calls */
@@ -61,15 +66,16 @@ int xv_rcb_calls; int xv_rcb_reason; const char *xv_rcb_msg; void *xv_rcb_data; 
 
 struct xv_leg nondet_xv_leg(void);
 void *nondet_vptr(void);
+char nondet_char(void);
 /* every relay harness calls this right after xv_ghost_havoc() */
 static inline void xv_relay_havoc(void)
 {
     xv_legs[0] = nondet_xv_leg(); xv_legs[1] = nondet_xv_leg();
     xv_bytestream = nondet_bool(); xv_src = nondet_int(); xv_terminated = nondet_bool(); xv_cb_frees = nondet_bool();
     xv_rcv_calls = nondet_int(); xv_rcv_conn = nondet_vptr(); xv_rcv_buf = nondet_vptr(); xv_rcv_cap = nondet_size_t();
-    xv_rcv_ret = nondet_int(); xv_rcv_errno = nondet_int(); xv_rcv_c = nondet_uchar();
+    xv_rcv_ret = nondet_int(); xv_rcv_errno = nondet_int(); xv_rcv_c = nondet_char();
     xv_snd_calls = nondet_int(); xv_snd_conn = nondet_vptr(); xv_snd_buf = nondet_vptr(); xv_snd_len = nondet_size_t();
-    xv_snd_ret = nondet_int(); xv_snd_errno = nondet_int(); xv_snd_c = nondet_uchar();
+    xv_snd_ret = nondet_int(); xv_snd_errno = nondet_int(); xv_snd_c = nondet_char();
     xv_fin_calls = nondet_int(); xv_fin_conn = nondet_vptr(); xv_fin_ret = nondet_int(); xv_fin_errno = nondet_int();
     xv_aw_calls = nondet_int(); xv_sb_calls = nondet_int(); xv_close_calls = nondet_int(); xv_close_unflushed = nondet_bool();
     xv_ev_pending = nondet_int(); xv_ev_add_calls = nondet_int(); xv_ev_del_calls = nondet_int(); xv_ev_assign_calls = nondet_int();
@@ -111,7 +117,12 @@ int xcm_receive(struct xcm_socket *__restrict conn_socket, void *__restrict buf,
     int i = xv_leg_use(conn_socket);
     __CPROVER_assert(!xv_legs[i].blocking, "xcm_receive on a non-blocking socket (the relay must never sleep in XCM)");
     __CPROVER_assert(capacity == 0 || __CPROVER_w_ok(buf, capacity), "xcm_receive buffer writeable");
+    __CPROVER_assert(buf == (void *)*xv_own_data && capacity <= XV_RELAY_DATA_MAX, "C20 xcm_receive into the xfwd's own buffer");
+    __CPROVER_assume(buf == (void *)*xv_own_data && capacity <= XV_RELAY_DATA_MAX);
     xv_rcv_calls++; xv_rcv_conn = conn_socket; xv_rcv_buf = buf; xv_rcv_cap = capacity; xv_rcv_c = 0;
+    /* over-approximation: whatever the outcome, ALL of the offered buffer is overwritten with arbitrary bytes (the real
+     * call stores n bytes and leaves the rest alone; one constant-size havoc before the case split keeps the formula small) */
+    if (capacity > 0) __CPROVER_havoc_slice(buf, capacity);
     if (nondet_bool()) {
         xv_errno = xv_relay_any_errno();
         xv_rcv_errno = xv_errno; xv_rcv_ret = -1;
@@ -119,10 +130,7 @@ int xcm_receive(struct xcm_socket *__restrict conn_socket, void *__restrict buf,
     }
     size_t n = nondet_size_t();
     __CPROVER_assume(n <= capacity && n <= 0x7fffffffUL);
-#ifndef XV_EXP_NOHAVOC
-    if (n > 0) __CPROVER_havoc_slice(buf, n);
-#endif
-    if (xv_j >= 0 && (size_t)xv_j < n) xv_rcv_c = ((const uint8_t *)buf)[xv_j];
+    if (xv_j >= 0 && (size_t)xv_j < n) xv_rcv_c = (*xv_own_data)[xv_j];
     xv_rcv_ret = (int)n;
     return (int)n;
 }
@@ -134,8 +142,10 @@ int xcm_send(struct xcm_socket *__restrict conn_socket, const void *__restrict b
     int i = xv_leg_use(conn_socket);
     __CPROVER_assert(!xv_legs[i].blocking, "xcm_send on a non-blocking socket (the relay must never sleep in XCM)");
     __CPROVER_assert(len == 0 || __CPROVER_r_ok(buf, len), "xcm_send buffer readable");
+    __CPROVER_assert(buf == (const void *)*xv_own_data && len <= XV_RELAY_DATA_MAX, "C20 xcm_send from the xfwd's own buffer");
+    __CPROVER_assume(buf == (const void *)*xv_own_data && len <= XV_RELAY_DATA_MAX);
     xv_snd_calls++; xv_snd_conn = conn_socket; xv_snd_buf = buf; xv_snd_len = len; xv_snd_c = 0;
-    if (xv_j >= 0 && (size_t)xv_j < len) xv_snd_c = ((const uint8_t *)buf)[xv_j];
+    if (xv_j >= 0 && (size_t)xv_j < len) xv_snd_c = (*xv_own_data)[xv_j];
     if (nondet_bool() || len == 0) {    /* a zero-length send is refused by messaging transports, pointless on streams */
         xv_errno = xv_relay_any_errno();
         xv_snd_errno = xv_errno; xv_snd_ret = -1;
@@ -225,6 +235,30 @@ int xcm_close(struct xcm_socket *socket)
     return 0;
 }
 
+/* ---- TRUSTED(libc) memmove, specialised ---------------------------------------------------------------------------------
+ * The only memmove of xrelay.c moves the unsent remainder to the front of the hold buffer.  Model for exactly that use
+ * (anything else is a failed obligation): both regions lie in the hold buffer, dst is its start.  Over-approximation:
+ * the WHOLE buffer becomes arbitrary, except that offset xv_mc (ghost, any value, never assigned) < n receives the byte
+ * that was at src + xv_mc.  Real memmove does that for every offset < n and leaves [n, 65535) alone, so each of its
+ * behaviours is one of the model's.  (CBMC's own model on a 64 KiB array inside a struct exhausts memory.) */
+void *memmove(void *dst, const void *src, size_t n)
+{
+    const char *base = *xv_own_data;
+    __CPROVER_assert(dst == (void *)base && __CPROVER_same_object(src, base), "memmove model: within the xfwd's own buffer, to its start");
+    __CPROVER_assume(dst == (void *)base && __CPROVER_same_object(src, base));
+    size_t k = (size_t)((const char *)src - base);
+    __CPROVER_assert(k <= XV_RELAY_DATA_MAX && n <= XV_RELAY_DATA_MAX - k, "memmove source region readable");
+    __CPROVER_assume(k <= XV_RELAY_DATA_MAX && n <= XV_RELAY_DATA_MAX - k);
+    if (n == 0)
+        return dst;
+    _Bool g = xv_mc < n;
+    char c = 0;
+    if (g) c = (*xv_own_data)[k + xv_mc];
+    __CPROVER_havoc_slice(dst, XV_RELAY_DATA_MAX);
+    if (g) (*xv_own_data)[xv_mc] = c;
+    return dst;
+}
+
 /* ---- TRUSTED(libevent 2.1) --------------------------------------------------------------------------------------- */
 #define XV_EV_FLAGS(ev) ((ev)->ev_evcallback.evcb_flags)
 #define XV_EV_CB(ev) ((ev)->ev_evcallback.evcb_cb_union.evcb_callback)
@@ -282,10 +316,8 @@ void xv_fwd_cb(int reason, const char *msg, void *cb_data)
 {
     xv_fcb_calls++; xv_fcb_reason = reason; xv_fcb_msg = msg; xv_fcb_data = cb_data;
     xv_terminated = 1;
-#ifndef XV_EXP_NOFREE
     if (xv_cb_frees)
         free(cb_data);
-#endif
 }
 /* TRUSTED(caller) xrelay_err_cb handed to xrelay_create() */
 void xv_relay_cb(struct xrelay *relay, int reason, const char *msg, void *cb_data)
